@@ -142,4 +142,16 @@ PROPS = {
                       '(closed stays closed, nothing more reaches the wire), lookups never block after the stop (with the regenerated fact that sendRequest gives up on a stopped client).',
         'level_note': 'Trusted: Lean kernel; extractor (reconnectShape, sendAborts, reqCap); scripted control plane.',
     },
+    'C19': {
+        'rule': '8 real managers (16 in the thorough tier), half with the name table, observed around real cleaner ticks (30 s after creation; the thorough tier waits for the second tick at 60 s): every name of the '
+                'rds/cds/eds (and lds without name table) universes is subscribed, cached and put at random into a class: old (looked up, last access back-dated 40 s through a verif hook), fresh (looked up again 1.2 s before the tick), '
+                'never (cached after its lookup timed out, never looked up again), plain (looked up at set-up only); the reserved inbound listener is looked up and back-dated. Evictions are read off the requests of the sweep and replayed '
+                'in the state machine; afterwards an evicted name is looked up again, pushed and looked up. Non-trivial: the sweep evicted something',
+        'assumptions': COMMON_ASSUME + ['tick timing is the Go runtime ticker; the model sweeps at logical instants (creation = 100, ticks = 130, 160)',
+                                         'that the cleaner visits every entry at every tick is the regenerated shape fact cleanerShape plus these runs'],
+        'level_text': 'Theorems: the cleaner can remove an entry only if its last access is more than 30 s old and it is not the reserved inbound listener (recent_kept, reserved_kept), and exactly such an entry is removable; '
+                      'removal deletes the cache entry and its bookkeeping, withdraws the name from the interest set and enqueues one request of that type omitting it; a lookup refreshes the idle clock; every newly cached entry '
+                      'has an idle clock (regenerated fact metaInitNow) so nothing cached escapes the cleaner; after eviction, subscribe + an accepted response serve the name again (in the C01 specification).',
+        'level_note': 'Trusted: Lean kernel; extractor (cleanerShape, expireSec, reserved, metaInitNow); verif hook VerifBackdate; real-time ticker.',
+    },
 }
